@@ -5,6 +5,7 @@ import (
 	"fmt"
 	"reflect"
 	"sort"
+	"strings"
 	"time"
 )
 
@@ -115,6 +116,13 @@ func BuildAlphabet() *Alphabet {
 	addF(Field{M: "Fields", Val: []interface{}{1, 2, "k", "v"}}, false)
 	addF(Field{M: "Fields", Val: "not a map"}, false)
 	addF(Field{M: "Fields", Val: map[string]interface{}{"n": nil, "p": (*int)(nil), "s": []string{"a"}, "st": plainStruct{A: 1}}}, false)
+	// values special only by their LENGTH: they cross the pooled 500-byte buffers / the 500-byte context capacity
+	long := strings.Repeat("L", 480)
+	addF(Field{M: "Str", Key: "k", Val: long}, false)
+	addF(Field{M: "Str", Key: long + "key", Val: "v"}, false)
+	addF(Field{M: "Bytes", Key: "k", Val: []byte(long + long)}, false)
+	addF(Field{M: "Dict", Key: "k", Sub: []Field{{M: "Str", Key: "in", Val: long}, {M: "Array", Key: "a", Form: "arr", Sub: []Field{{M: "Str", Val: long}, {M: "Int", Val: 1}}}}}, false)
+	addF(Field{M: "AnErr", Key: "k", Val: errors.New(long + "\"")}, false)
 	// Fields with every pointer-typed arm of the type switch, nil and non-nil
 	addF(Field{M: "Fields", Val: PointerFieldsMap(false)}, false)
 	addF(Field{M: "Fields", Val: PointerFieldsMap(true)}, false)
